@@ -24,7 +24,7 @@ func checkC18(c *Ctx, r *Report) {
 	r.Explanation = "Acquire/release discipline decided on go/ssa for every path: (R1) every connection obtained from sm.Client.Dial* in module code is closed on every path from the successful dial to a return (explicitly or by defer), or handed to the caller, or cached in a field behind a dial-once test; (R2) no `go` statement is reachable from a request handler in module code, so a completed request leaves no task of the module behind. go-diameter starts one watchdog/reader goroutine per dialled connection and ends it when the connection closes (trusted), so R1 bounds those too."
 	r.Undecided = []string{"actual connection/goroutine counts over time (library internals trusted)", "TIME_WAIT sockets of closed connections"}
 	r.Trusted = append(r.Trusted, "go-diameter ties its per-connection goroutines (reader, watchdog) to the connection's lifetime", "go-diameter sm.(*Client).dwr closes the connection after WatchdogInterval + (MaxRetransmits+1) x RetransmitInterval without a DWA (read from diam/sm/client.go)")
-	r.rule("C18.R1", "every dialled Diameter connection is closed on all paths, returned, or cached behind a dial-once guard", 2)
+	r.rule("C18.R1", "every dialled Diameter connection is closed on all paths (by Close or by a helper that closes it on all of its paths), returned to a caller that does, or cached behind a dial-once guard", 1)
 	r.rule("C18.R2", "no go statement reachable from a request handler in module code", 1)
 	r.rule("C18.R3", "the connection watchdog cannot give up before the request's own time-out (constants of the sm.Client literals vs the client functions' time.After)", 2)
 
@@ -79,8 +79,21 @@ func checkC18(c *Ctx, r *Report) {
 
 // connReleased: see C18.R1.
 func connReleased(c *Ctx, f *ssa.Function, dial *ssa.Call) (bool, string) {
+	return connCallReleased(c, f, dial, 0)
+}
+
+// connCallReleased: the connection that is result 0 of `call` (a Dial* of
+// go-diameter, or a module function that returns a connection it dialled) is
+// released on every path after the call succeeded.
+func connCallReleased(c *Ctx, f *ssa.Function, call *ssa.Call, depth int) (bool, string) {
+	if depth > 3 {
+		return false, "the connection is passed through more helper functions than the rule follows"
+	}
 	var conn, errv ssa.Value
-	for _, ref := range *dial.Referrers() {
+	if call.Call.Signature().Results().Len() == 1 {
+		conn = call
+	}
+	for _, ref := range *call.Referrers() {
 		if ex, ok := ref.(*ssa.Extract); ok {
 			if ex.Index == 0 {
 				conn = ex
@@ -93,42 +106,69 @@ func connReleased(c *Ctx, f *ssa.Function, dial *ssa.Call) (bool, string) {
 		return false, "the dialled connection is discarded: it can never be closed"
 	}
 	// success edge
-	var succ *ssa.BasicBlock
+	succ := call.Block()
 	if errv != nil {
-		for _, ref := range *errv.Referrers() {
-			bo, ok := ref.(*ssa.BinOp)
-			if !ok || (bo.Op != token.NEQ && bo.Op != token.EQL) {
-				continue
-			}
-			for _, r2 := range *bo.Referrers() {
-				if ifi, ok := r2.(*ssa.If); ok {
-					if bo.Op == token.NEQ {
-						succ = ifi.Block().Succs[1]
-					} else {
-						succ = ifi.Block().Succs[0]
-					}
-				}
-			}
+		if _, to := nilTestEdge(errv, 0); to != nil {
+			succ = to
 		}
 	}
-	if succ == nil {
-		succ = dial.Block()
-	}
+	return connValueReleased(c, f, conn, succ, call.Block(), depth)
+}
+
+// connValueReleased: conn (a value of f) is closed on every path from `succ`
+// to a return - by a Close, by a helper that closes its parameter on all of
+// its paths - or handed to the caller (whose call sites then carry the
+// obligation), or cached behind a dial-once test.
+func connValueReleased(c *Ctx, f *ssa.Function, conn ssa.Value, succ, dialBlock *ssa.BasicBlock, depth int) (bool, string) {
 	var closers []ssa.Instruction
 	handedOver := false
 	how := ""
+	partial := ""
 	for _, ref := range *conn.Referrers() {
 		switch x := ref.(type) {
 		case ssa.CallInstruction:
 			cc := x.Common()
+			if _, isGo := x.(*ssa.Go); isGo {
+				continue
+			}
 			if cc.IsInvoke() && cc.Value == conn && cc.Method.Name() == "Close" {
-				if _, isGo := x.(*ssa.Go); !isGo {
-					closers = append(closers, x)
+				closers = append(closers, x)
+				continue
+			}
+			// handed to a module function: a release only if that function closes it on all its paths
+			if g := cc.StaticCallee(); g != nil && c.inModule(g) && len(g.Blocks) > 0 {
+				for i, a := range cc.Args {
+					if a != conn || i >= len(g.Params) {
+						continue
+					}
+					if ok, why := paramClosedOnAllPaths(c, g, i, depth+1); ok {
+						closers = append(closers, x)
+					} else if why != "" && partial == "" {
+						partial = shortFn(g) + " " + why
+					}
 				}
 			}
 		case *ssa.Return:
+			// the caller takes over: every call site of f must release it
+			callers := 0
+			for _, g := range c.ModFuncs {
+				bad := ""
+				eachInstr(g, func(_ *ssa.BasicBlock, _ int, ins ssa.Instruction) {
+					cs, ok := ins.(*ssa.Call)
+					if !ok || cs.Call.StaticCallee() != f {
+						return
+					}
+					callers++
+					if ok2, why := connCallReleased(c, g, cs, depth+1); !ok2 && bad == "" {
+						bad = fmt.Sprintf("%s returns the connection to %s (%s), where %s", shortFn(f), shortFn(g), posOf(c, cs), why)
+					}
+				})
+				if bad != "" {
+					return false, bad
+				}
+			}
 			handedOver = true
-			how = "the connection is returned to the caller"
+			how = fmt.Sprintf("the connection is returned to the caller (%d call sites release it)", callers)
 		case *ssa.Store:
 			if x.Val == conn {
 				if fa, ok := x.Addr.(*ssa.FieldAddr); ok {
@@ -144,7 +184,7 @@ func connReleased(c *Ctx, f *ssa.Function, dial *ssa.Call) (bool, string) {
 						}
 						for d := range depSet(f, ifi.Cond) {
 							if fa2, ok := d.(*ssa.FieldAddr); ok && fa2.Field == fa.Field && namedOf(fa2.X.Type()) == namedOf(fa.X.Type()) {
-								if b.Dominates(dial.Block()) {
+								if b.Dominates(dialBlock) {
 									guarded = true
 								}
 							}
@@ -162,12 +202,61 @@ func connReleased(c *Ctx, f *ssa.Function, dial *ssa.Call) (bool, string) {
 		return true, how
 	}
 	if len(closers) == 0 {
+		if partial != "" {
+			return false, "the connection is handed to " + partial
+		}
 		return false, "the connection dialled here is never closed: every request leaves a TLS connection and go-diameter's watchdog/reader goroutines behind"
 	}
 	if !everyPathFromPasses(succ, closers) {
+		if partial != "" {
+			return false, "a path from the successful dial to a return does not close the connection (it is handed to " + partial + ")"
+		}
 		return false, "a path from the successful dial to a return does not close the connection"
 	}
 	return true, "closed on every path after the successful dial"
+}
+
+// paramClosedOnAllPaths: g closes its i-th parameter (a connection) on every
+// path from its entry to a return.
+func paramClosedOnAllPaths(c *Ctx, g *ssa.Function, i int, depth int) (bool, string) {
+	if depth > 3 {
+		return false, ""
+	}
+	p := g.Params[i]
+	if !typeIs(p.Type(), diamPath, "Conn") {
+		return false, ""
+	}
+	var closers []ssa.Instruction
+	for _, ref := range *p.Referrers() {
+		x, ok := ref.(ssa.CallInstruction)
+		if !ok {
+			continue
+		}
+		if _, isGo := x.(*ssa.Go); isGo {
+			continue
+		}
+		cc := x.Common()
+		if cc.IsInvoke() && cc.Value == ssa.Value(p) && cc.Method.Name() == "Close" {
+			closers = append(closers, x)
+			continue
+		}
+		if h := cc.StaticCallee(); h != nil && c.inModule(h) && len(h.Blocks) > 0 {
+			for j, a := range cc.Args {
+				if a == ssa.Value(p) && j < len(h.Params) {
+					if ok, _ := paramClosedOnAllPaths(c, h, j, depth+1); ok {
+						closers = append(closers, x)
+					}
+				}
+			}
+		}
+	}
+	if len(closers) == 0 {
+		return false, "which never closes it"
+	}
+	if !everyPathFromPasses(g.Blocks[0], closers) {
+		return false, "which closes it on some of its paths only (a return is reached without Close)"
+	}
+	return true, ""
 }
 
 // ---------------------------------------------------------------------------
@@ -465,39 +554,88 @@ func c18WatchdogOutlivesRequest(c *Ctx, r *Report, rule string) {
 	// time-out of the request, per client member used for dialling
 	timeoutOf := map[string]int64{}
 	whereOf := map[string]string{}
-	for _, f := range c.ModFuncs {
-		var member string
-		var tmo int64 = -1
+	// per function (with the module functions it calls, three levels deep): does it dial, and
+	// the shortest constant time-out it waits with
+	type waitInfo struct {
+		dials bool
+		tmo   int64
+	}
+	memo := map[*ssa.Function]waitInfo{}
+	var infoOf func(f *ssa.Function, depth int) waitInfo
+	infoOf = func(f *ssa.Function, depth int) waitInfo {
+		if wi, ok := memo[f]; ok {
+			return wi
+		}
+		wi := waitInfo{tmo: -1}
+		memo[f] = wi
 		eachInstr(f, func(_ *ssa.BasicBlock, _ int, ins ssa.Instruction) {
-			call, ok := ins.(*ssa.Call)
+			call, ok := ins.(ssa.CallInstruction)
 			if !ok {
 				return
 			}
-			obj := calleeObj(&call.Call)
+			cc := call.Common()
+			obj := calleeObj(cc)
 			if obj == nil || obj.Pkg() == nil {
 				return
 			}
-			if obj.Pkg().Path() == smPath && strings.HasPrefix(obj.Name(), "Dial") && len(call.Call.Args) > 0 {
-				if p, ok := pathOf(call.Call.Args[0]); ok && len(p.Elems) > 0 {
-					member = p.Elems[len(p.Elems)-1]
-				}
+			if obj.Pkg().Path() == smPath && strings.HasPrefix(obj.Name(), "Dial") {
+				wi.dials = true
 			}
 			// the time-out of the wait: time.After(d), time.NewTimer(d), context.WithTimeout(ctx, d)
 			var dur ssa.Value
 			switch {
-			case obj.Pkg().Path() == "time" && (obj.Name() == "After" || obj.Name() == "NewTimer") && len(call.Call.Args) == 1:
-				dur = call.Call.Args[0]
-			case obj.Pkg().Path() == "context" && obj.Name() == "WithTimeout" && len(call.Call.Args) == 2:
-				dur = call.Call.Args[1]
+			case obj.Pkg().Path() == "time" && (obj.Name() == "After" || obj.Name() == "NewTimer") && len(cc.Args) == 1:
+				dur = cc.Args[0]
+			case obj.Pkg().Path() == "context" && obj.Name() == "WithTimeout" && len(cc.Args) == 2:
+				dur = cc.Args[1]
 			}
 			if dur != nil {
-				if k, ok := constInt(dur); ok && (tmo < 0 || k < tmo) {
-					tmo = k
+				if k, ok := constInt(dur); ok && (wi.tmo < 0 || k < wi.tmo) {
+					wi.tmo = k
+				}
+			}
+			if g := cc.StaticCallee(); g != nil && c.inModule(g) && len(g.Blocks) > 0 && depth < 3 {
+				sub := infoOf(g, depth+1)
+				wi.dials = wi.dials || sub.dials
+				if sub.tmo >= 0 && (wi.tmo < 0 || sub.tmo < wi.tmo) {
+					wi.tmo = sub.tmo
 				}
 			}
 		})
-		if member != "" && tmo >= 0 {
-			timeoutOf[member] = tmo
+		memo[f] = wi
+		return wi
+	}
+	for _, f := range c.ModFuncs {
+		// the client member this function dials with: the receiver of a Dial*, or an argument
+		// of a module helper that dials
+		var member string
+		eachInstr(f, func(_ *ssa.BasicBlock, _ int, ins ssa.Instruction) {
+			call, ok := ins.(ssa.CallInstruction)
+			if !ok {
+				return
+			}
+			cc := call.Common()
+			obj := calleeObj(cc)
+			dialsHere := obj != nil && obj.Pkg() != nil && obj.Pkg().Path() == smPath && strings.HasPrefix(obj.Name(), "Dial")
+			if !dialsHere {
+				if g := cc.StaticCallee(); g == nil || !c.inModule(g) || len(g.Blocks) == 0 || !infoOf(g, 1).dials {
+					return
+				}
+			}
+			for _, a := range cc.Args {
+				if !typeIs(a.Type(), smPath, "Client") {
+					continue
+				}
+				if p, ok := pathOf(a); ok && len(p.Elems) > 0 && typeIs(p.Root.Type(), ctxPath, "ChfUe") {
+					member = p.Elems[len(p.Elems)-1]
+				}
+			}
+		})
+		if member == "" {
+			continue
+		}
+		if wi := infoOf(f, 0); wi.tmo >= 0 {
+			timeoutOf[member] = wi.tmo
 			whereOf[member] = fnKey(f)
 		}
 	}
